@@ -8,6 +8,11 @@ HOOK_COMMITS = ["204cfe3", "2edc694", "e1d8638"]
 
 # id -> (category, technique, level text, level note, design ref)
 CHECKS = {
+ "C15": ("exploration",
+         "Go race detector over a mixed concurrent workload in child processes of a -race build (reports logged, parsed and de-duplicated by the innermost bluge frames of both accesses), Close-under-load with a goroutine-dump deadlock oracle, and reopen-after-close content check",
+         "Writers on disjoint id spaces, reader acquisition, 3..8 parallel searches per reader covering the scored and unscored conjunction/disjunction optimisations, phrase, sorted top-N with aggregations and stored-field loads run under seeded jitter and GOMAXPROCS 1..16 while merges and persists are in flight; the writer is closed after all Batch callers returned (in a third of the runs while searches still run) and the directory reopened. Any race report with bluge frames, a dead child, a Close that provably deadlocks or lost acknowledged content fails the check. Held on the executions observed; the race detector only sees executed accesses.",
+         "Trusts: the Go race detector; 40 s Close watchdog decided by two goroutine dumps (else inconclusive).",
+         "DESIGN.md §4 C15"),
  "C04": ("exploration",
          "runtime monitoring of held readers in child processes: complete fingerprints (count, documents with stored fields, document values, dictionaries, query battery) re-taken twice back to back after batches, around scripted background steps (segment removal, merge introduction, persist swap), at quiescence and after Writer.Close; liveness assertions in a wrapping segment plug-in (use after handle close); child death = fault",
          "Readers of several ages (current-root, superseded, OpenReader beside the live writer, outliving Close) are kept open while a merge-happy writer with seeded jitter continues; each reader's fingerprint must never change and its content must equal the abstract index at acquisition; gates place one background step of each kind between two reads and the log of realised (reader kind, step kind) pairs is reported. Held on the runs observed.",
@@ -105,7 +110,7 @@ CHECKS = {
          "DESIGN.md §4 C19"),
 }
 
-NOT_YET = "check not built yet in this session (construction in progress, see DESIGN.md §8a)"
+NOT_YET = "not claimed"
 
 def main():
     props = [json.loads(l) for l in open("/verif/properties.jsonl")]
